@@ -32,8 +32,11 @@ Definition init_rstate : rstate :=
   {| r_s := init_server None; r_b := init_blocking; r_now := 0; r_sent := []; r_read := []; r_fin := [] |}.
 
 Definition zget (l : list (Z * Z)) (c : Z) : Z := match zlookup c l with Some n => n | None => 0 end.
+(** what the client of connection [c] has decoded so far: the frames written to the connection
+    are serialised into its write buffer (a frame whose serialisation fails half-way - NoResponse
+    nested in an EXEC reply - leaves its bytes so far) and the client decodes the byte stream *)
 Definition frames_of (b : blocking) (c : Z) : list frame :=
-  rev (map snd (filter (fun cf => fst cf =? c) (b_out b))).
+  fst (decode_out (write_replies (rev (map snd (filter (fun cf => fst cf =? c) (b_out b)))))).
 Definition owed (r : rstate) (c : Z) : Z := zget (r_sent r) c - len (frames_of (r_b r) c).
 
 Definition loop_iterations : nat := 8.
